@@ -101,6 +101,39 @@ CHECKS.update({
     ),
 })
 
+CHECKS.update({
+    "C05": (
+        "fault_enumeration",
+        "fault injection at token level on generated well-formed documents + "
+        "exhaustive short token sequences; oracle = independent recursive-descent "
+        "recogniser written from the specifications' BNF",
+        "Generated documents are damaged by 1-3 token faults (delete, duplicate, swap, "
+        "replace, truncate, cut inside a quoted string/units) and every token sequence "
+        "of length <= 4 (quick) / 5 (thorough) over a 14-token vocabulary is enumerated; "
+        "whenever the reference recogniser finds the text ill-formed before END/EOF "
+        "the loader must raise LexerError/ParseError, and when it finds it well-formed "
+        "a returned module must equal the recogniser's tree.",
+        "Trusted: vlib/refread.py (validated on every un-faulted document); cases the "
+        "specifications leave open are skipped and counted.",
+        "DESIGN.md 4/C05",
+    ),
+    "C06": (
+        "exploration",
+        "bounded exhaustive enumeration of strings and token sequences + Hypothesis "
+        "token soup / Unicode text / corpus mutations; oracle = exception type and a "
+        "deterministic token-pull budget for termination",
+        "All strings up to length 3 (quick) / 5 (thorough) over a 21-symbol alphabet "
+        "and all token sequences up to length 4 / 5 over a 17-token vocabulary (plus "
+        "bracket-rich value tails) are loaded under all six parser variants; only a "
+        "module, LexerError or ParseError is acceptable; spinning is detected by a "
+        "counting lexer passed through the public lexer_fn parameter. Complete up to "
+        "the stated bounds, sampled beyond.",
+        "Trusted: the pull budget (60*len+2000) is generous enough for any "
+        "terminating parse; loops that do not touch the token stream are not seen.",
+        "DESIGN.md 4/C06",
+    ),
+})
+
 PENDING = {}   # id -> reason while a check is not built yet
 
 
